@@ -22,7 +22,7 @@ import math
 from fractions import Fraction
 import numpy as np
 import z3
-from ndvc import solve, cut
+from ndvc import solve, cut, xcheck
 from ndvc.sym import R, C, Z, B, real, integer, lift, CTX, explore, ceq, parts, NeedsConcrete, hyps
 from ndvc.arr import SymArr, asobj
 from ndvc.overlay import PINV_LOG
@@ -182,6 +182,24 @@ def run_cfg(method, n, orders, rulecls='LogRule', group_fmt='cfg[%s,n=%d]/order=
             der, hh = rule._apply(fdel, hs, r)
             solve.fact('A:cache-hit', len(PINV_LOG) == n_mid, note='second call with the same ratio must reuse the cached inverse')
             solve.fact('A:rows', len(der) == K - (T - 1) and len(hh) == len(der) and np.shape(der) == (3, 1))
+            # engine cross-check: _apply on floats with the real numpy / scipy (the inverse of M at q = 1/2 for the pinv symbols)
+            from fractions import Fraction as Fr
+            asg = {'q': Fr(1, 2)}
+            gnum = np.array([[((7 * k_ * k_ + 3 * k_) % 13 - 6) / 4.0] for k_ in range(K)]); hnum = np.array([[0.5 ** k_] for k_ in range(K)])
+            for k_ in range(K):
+                asg['g%d' % k_] = Fr(float(gnum[k_, 0])); asg['H%d' % k_] = Fr(float(hnum[k_, 0]))
+
+            def native(order=order, gnum=gnum, hnum=hnum):
+                import importlib
+                fdn = importlib.import_module('numdifftools.finite_difference')
+                return tuple(getattr(fdn, rulecls)(n=n, method=method, order=order)._apply(gnum, hnum, 2.0))
+            try:
+                a_, i_ = xcheck.complete_assignment(asg)
+                cond = float(np.linalg.cond(np.asarray(xcheck.concretize(np.asarray(M, dtype=object), a_, i_), dtype=complex)))
+            except Exception:
+                cond = float('inf')
+            if cond < 1e8:       # beyond that scipy's pinv drops singular values: outside the pinv contract (numerically singular moment system)
+                xcheck.defer('A:engine==CPython(%s._apply)' % rulecls, (der, hh), asg, native, pinv_log=[(M, P)], rtol=1e-5, atol=1e-8)
             sign = -1 if rule._flip_fd_rule else 1
             idx = (n - 1) // rs
             okidx = 0 <= idx < T
@@ -251,6 +269,7 @@ def run_cfg(method, n, orders, rulecls='LogRule', group_fmt='cfg[%s,n=%d]/order=
                     solve.prove('R:tau%d==0' % k, taus2[k] == 0, S2)
             solve.prove('R:tau_n!=0', taus2[n] != 0, S2)
             info['configs'].append([method, n, order, mo, rs, T, ps])
+    xcheck.flush()
     return info
 
 
